@@ -22,7 +22,8 @@ TLgFile == IsEvent("lgfile") /\ UNCHANGED <<pidvars, fvars, lgvars>> /\ Tr[l].li
 TWrap == IsEvent("wrap") /\ UNCHANGED <<pidvars, fvars, lgvars>> /\ Wrap02OK(Tr[l].k, Tr[l].j02) /\ WrapPiOK(Tr[l].k, Tr[l].jpi) /\ Tr[l].ex
 TAlgo == IsEvent("algo") /\ UNCHANGED <<pidvars, fvars, lgvars>> /\ (AlgoOK(Tr[l]) = TRUE)
 TIntervalN == IsEvent("intervaln") /\ UNCHANGED <<pidvars, fvars, lgvars>> /\ (IntervalNOK(Tr[l]) = TRUE)
-TraceNext == TLgAdd \/ TLgWrite \/ TLgFile \/ TWrap \/ TAlgo \/ TIntervalN \/ TNlse \/ TRansac \/ TReset \/ TPid \/ TFilter \/ TFReset \/ TOneToOne \/ TDuration
+TRansacIt == IsEvent("ransacit") /\ UNCHANGED <<pidvars, fvars, lgvars>> /\ (RansacItOK(Tr[l]) = TRUE)
+TraceNext == TRansacIt \/ TLgAdd \/ TLgWrite \/ TLgFile \/ TWrap \/ TAlgo \/ TIntervalN \/ TNlse \/ TRansac \/ TReset \/ TPid \/ TFilter \/ TFReset \/ TOneToOne \/ TDuration
 TraceSpec == TraceInit /\ [][TraceNext]_tvars
 TraceAccepted == TLCGet("stats").diameter - 1 = Len(Tr)
 =============================================================================
